@@ -95,6 +95,7 @@ type Evaluator struct {
 	// slot write while it is > 0 is recorded as feature "hazard:slot-operand" (used only to
 	// exclude the trigger of an open finding; it does not change evaluation).
 	pendingSlot int
+	stale       bool // an assignment target disappeared while its right-hand side ran
 	pendingVar  int // same for operands that may denote a variable's cell (interpreter aliasing)
 }
 
@@ -939,7 +940,20 @@ func (ev *Evaluator) place(x Expr, e *env) (*place, *ctrl) {
 			return nil, c
 		}
 		ev.feat("elem-write")
-		return &place{func() Value { return l.Elems[i] }, func(v Value) { ev.slotWrite(); l.Elems[i] = v }}, nil
+		return &place{func() Value {
+			if i >= len(l.Elems) {
+				ev.stale = true
+				return IntV(0)
+			}
+			return l.Elems[i]
+		}, func(v Value) {
+			ev.slotWrite()
+			if i >= len(l.Elems) {
+				ev.stale = true // the list shrank while the right-hand side was evaluated: outside the model
+				return
+			}
+			l.Elems[i] = v
+		}}, nil
 	case Member:
 		bv, c := ev.eval(x.X, e)
 		if c != nil {
@@ -970,6 +984,9 @@ func (ev *Evaluator) assign(x Assign, e *env) (Value, *ctrl) {
 			return nil, c
 		}
 		pl.set(r)
+		if ev.stale {
+			return nil, ev.abort("stale assignment target")
+		}
 		return NullV{}, nil
 	}
 	// `a op= b` is `a = a op b`: the target's value is read before b is evaluated.
@@ -992,6 +1009,9 @@ func (ev *Evaluator) assign(x Assign, e *env) (Value, *ctrl) {
 		return nil, c
 	}
 	pl.set(nv)
+	if ev.stale {
+		return nil, ev.abort("stale assignment target")
+	}
 	return NullV{}, nil
 }
 
